@@ -63,4 +63,8 @@ def to_int(val: Any) -> int:
             f"value has {len(val)} digits",
             token=None,
         )
-    return int(val)
+    try:
+        return int(val)
+    except OverflowError as err:
+        # Infinity can't be converted to an integer.
+        raise ValueError(str(err)) from err
